@@ -219,7 +219,7 @@ func neighbourReapedRun(r *vh.Runner, c *vh.Case, i int) {
 		c.Inconclusive("tube did not close within 5 virtual minutes (C16 judges shutdown)")
 		return
 	}
-	bub.Settle(time.Duration(rng.Pick(1, 600, 600, 3600)) * time.Second) // before / after the muxers forget the closed tube
+	bub.Settle(time.Duration(rng.Pick(0, 1, 30, 600)) * time.Second) // before / after the muxers forget the closed tube
 	// a new tube of the surviving kind
 	var fresh tubes.Tube
 	if closeReliable {
